@@ -63,6 +63,37 @@ def sat_rounding(ctx):
     ctx.undecided('value_sat: conversion idiom not recognised: %s' % norm(rets[0].value))
 
 
+@PROP.obligation('C17.from-satoshi-exact', canaries=[
+    mut.replace_expr('values', 'Value.from_satoshi', 'value * (network.denominator / denominator)', 'round(value * (network.denominator / denominator), -int(math.log10(network.denominator)))', 'from_satoshi rounds to 8 decimals of the requested unit'),
+    mut.replace_expr('values', 'Value.from_satoshi', 'value * (network.denominator / denominator)', 'int(value * (network.denominator / denominator))', 'from_satoshi truncates to whole units'),
+])
+def from_satoshi_exact(ctx):
+    """Value.from_satoshi(n, unit) expresses n smallest units in the requested unit: the amount handed to the constructor is
+    n * (network.denominator / unit) and is not rounded or truncated in that unit. A round() whose digit count does not depend on the
+    unit (8 decimals = satoshi precision of the COIN) is coarser than one satoshi for every unit above one coin (1e-8 kBTC = 1000 sat)."""
+    q = 'values:Value.from_satoshi'
+    fn = ctx.repo.func(q)
+    conv = [n for n in ast.walk(fn) if isinstance(n, ast.BinOp) and isinstance(n.op, (ast.Mult, ast.Div)) and 'denominator' in norm(n) and 'value' in [x.id for x in ast.walk(n) if isinstance(x, ast.Name)]]
+    if not conv:
+        ctx.undecided('from_satoshi: unit conversion not found')
+    ctx.saw('conversion: %s' % norm(conv[0]))
+    for c in ast.walk(fn):
+        if not isinstance(c, ast.Call):
+            continue
+        name = norm(c.func)
+        if name not in ('round', 'int', 'math.floor', 'math.trunc', 'math.ceil', 'floor', 'trunc', 'ceil') or not c.args:
+            continue
+        if not any(x in list(ast.walk(c.args[0])) for x in conv):
+            continue
+        digits = c.args[1] if len(c.args) > 1 else None
+        unit_aware = digits is not None and any(isinstance(x, ast.Name) and x.id == 'denominator' for x in ast.walk(digits))
+        if not unit_aware:
+            ctx.violate(q, 'the converted amount is passed through `%s`: the precision (%s) is fixed in units of the REQUESTED denominator' % (norm(c)[:100], norm(digits) if digits is not None else 'whole units'), c,
+                        'for units above one coin (da, h, k, M ...) the last digits of the satoshi amount are lost: from_satoshi(123456789, "k").value_sat != 123456789')
+        else:
+            ctx.unsure('%s: converted amount rounded with a unit-dependent precision `%s`' % (q, norm(digits)))
+
+
 CASEFOLD = {'lower', 'upper', 'casefold', 'swapcase', 'capitalize', 'title'}
 
 
